@@ -49,7 +49,7 @@ ASSUMPTIONS = [
     "last aggregated one) and is appended again; the model follows the statement here",
 ]
 TIERS = {
-    "quick": {"examples": 3200, "budget_s": 50},
+    "quick": {"examples": 3200, "budget_s": 150},
     "thorough": {"examples": 125000, "budget_s": 800},
 }
 
@@ -118,7 +118,11 @@ def analyse(case):
     out: list[Violation] = []
     for bi, batch in enumerate(case["batches"]):
         log = Mdl.ErrorLog(entries=[Mdl.ErrorLogEntry(message=m, severity=s, created_time=float(t)) for m, s, t in batch])
-        agg.aggregate_with(log)
+        try:
+            agg.aggregate_with(log)
+        except Exception as ex:   # the subject (not the harness) failed
+            return [Violation("aggregate-raises:%s" % type(ex).__name__, "aggregate_with raised %s: %s on batch %d" % (type(ex).__name__, ex, bi), case)], \
+                {"merges": 0, "dups": 0, "open": 0, "n": n_in}
         for m, s, t in batch:
             n_in += 1
             nxt = []
